@@ -178,3 +178,20 @@ mod tests {
         assert_eq!(header.total_size(), 8);
     }
 }
+
+/// Read exactly `len` bytes into a new buffer that grows with what the stream delivers.
+///
+/// Sizes come from chunk headers and offset tables of possibly damaged files: allocating them up
+/// front lets one bad value ask for gigabytes before the read fails.
+pub(crate) fn read_vec<R: std::io::Read>(reader: &mut R, len: usize) -> std::io::Result<Vec<u8>> {
+    use std::io::Read;
+    let mut data = Vec::new();
+    reader.by_ref().take(len as u64).read_to_end(&mut data)?;
+    if data.len() != len {
+        return Err(std::io::Error::new(
+            std::io::ErrorKind::UnexpectedEof,
+            "chunk data extends beyond the end of the file",
+        ));
+    }
+    Ok(data)
+}
